@@ -61,6 +61,8 @@ def gen_case(rng, i, multi_every=6, share_every=4, shipped_every=3, n_samples=1,
         return gen_fanout_case(rng, n_samples)
     kw = dict(kw)
     kw.setdefault("dup_output", 0.08)
+    kw.setdefault("dynamic_batch", 0.15)
+    kw.setdefault("fused_act", 0.2)
     if i % 7 == 5 and "kinds" not in kw and "n_ops" not in kw:
         # deep graphs with many weight-bearing operators in a row (op-position bookkeeping over many insertions)
         kw["n_ops"], kw["kinds"] = rng.randint(6, 12), gm.WEIGHT_HEAVY
